@@ -501,6 +501,10 @@ pub enum Op {
     /// Push new lexical scope
     PushScope,
 
+    /// Push the scope of a TypeScript namespace body: names that are not bound in it resolve
+    /// to own properties of the namespace object in `obj`
+    PushNamespaceScope { obj: Register },
+
     /// Pop lexical scope
     PopScope,
 
